@@ -5,6 +5,7 @@ import Tickit.Proof.RectSetInv
 import Tickit.Gen.Win
 import Tickit.Proof.WinRB
 import Tickit.Proof.XTermDrv
+import Tickit.Model.WinTextf
 /-
   C02 — A window's drawing is confined to the cells it owns, in its own coordinates.
 
@@ -261,6 +262,44 @@ theorem copyRect_source_is_absolute :
     (match (rb.copyRect ⟨0, 1, 1, 1⟩ ⟨0, 0, 1, 1⟩).cells 1 1 with | none => true | _ => false) = true := by
   decide +kernel
 
+/-! #### printf-style texts (`tickit_renderbuffer_textf_at`, `put_vtextf`) -/
+
+/-- **Both paths of `put_vtextf` hand `put_text` the formatted bytes** — results of fewer than 64 bytes from the array on the
+    stack, longer ones from the buffer's scratch area — and **neither touches the count of valid scratch bytes**
+    (`rb->tmplen`), which `flush_to_term` takes to be 0 when it starts collecting the bytes of a LINE run or a CHAR cell:
+    so the bytes a flush prints for such a cell are that cell's own, whatever was formatted before in the same flush. -/
+theorem putVtextf_text_and_scratch (sc : Scratch) (formatted : List Nat) :
+    (putVtextf sc formatted).1 = formatted ∧ (putVtextf sc formatted).2.tmplen = sc.tmplen := by
+  unfold putVtextf
+  split <;> exact ⟨rfl, rfl⟩
+
+/-- The formatted result of `"%*s"`: at least `pad` bytes and at least the text's, ending in the text. -/
+theorem formatPad_length (pad : Nat) (bytes : List Nat) :
+    (formatPad pad bytes).length = max pad bytes.length ∧ (formatPad pad bytes).drop (pad - bytes.length) = bytes := by
+  unfold formatPad
+  refine ⟨?_, ?_⟩
+  · simp only [List.length_append, List.length_replicate]; omega
+  · rw [List.drop_append]
+    simp
+
+/-- A text drawn with `textf_at` is the text drawn with `text_at`, whatever its length. -/
+theorem textfAt_eq_textAt (rb : RB) (decode : List Nat → List Nat) (l c : Int) (pad : Nat) (bytes : List Nat) :
+    rb.textfAt decode l c pad bytes = rb.textAt l c (decode (formatPad pad bytes)) := by
+  unfold RB.textfAt
+  rw [(putVtextf_text_and_scratch {} _).1]
+
+/-- **A printf-style text is confined like any other drawing**, however long the formatted result is (in particular 64
+    bytes and more, the scratch-area path) and however small the window it is clipped to: a cell the buffer does not let
+    the handler touch keeps its value, and the frame (`save` stack, masks, size, clip) is what it was. -/
+theorem textf_confined (rb : RB) (decode : List Nat → List Nat) (l c : Int) (pad : Nat) (bytes : List Nat) :
+    Paints rb (rb.textfAt decode l c pad bytes) := by
+  rw [textfAt_eq_textAt]
+  exact paints_textAt rb l c _
+
+theorem textf_cells_of_not_writable (rb : RB) (decode : List Nat → List Nat) (l c : Int) (pad : Nat) (bytes : List Nat)
+    (L C : Int) (h : rb.writable L C = false) : (rb.textfAt decode l c pad bytes).cells L C = rb.cells L C :=
+  (textf_confined rb decode l c pad bytes).cells L C h
+
 /-! #### non-vacuity: the three scenarios on a concrete tree -/
 
 /-- Glyph and foreground of the cells `0 … n - 1` of screen row `l` after `r`. -/
@@ -299,6 +338,22 @@ example : rowOf (twoWindows >>= fun st => flush ruledBox st) 0 8 =
     some [(32, 1), (32, 1), (32, 1), (32, 1), (32, 1), (0x2514, 2), (0x2500, 2), (0x2518, 2)] ∧
     rowOf (twoWindows >>= fun st => flush ruledBox st) 2 8 =
     some [(32, 1), (32, 1), (32, 1), (32, 1), (32, 1), (0x2575, 1), (32, 1), (32, 1)] := by
+  decide +kernel
+
+/-- The child (3 columns wide) draws a label of 70 formatted bytes (`"%*s"`, pad 70: 67 blanks and `xyz`, moved left so that
+    its end falls into the window) and a single character below it; the root blanks itself, rules a line along row 2 and
+    writes a 70-byte label of its own from far left of the screen: rows 0 and 1 show the root's blanks up to the child and
+    then the child's `xyz` / `*`, row 2 the root's line — nothing of either label anywhere else. -/
+def longLabels : Id → Rect → List DrawOp := fun w rect =>
+  if w = 0 then [.eraseRect rect, .hline 2 0 7 1 0, .textAt 1 (-66) ((putVtextf {} (formatPad 70 [113])).1)]
+  else [.eraseRect rect, .textAt 0 (-67) ((putVtextf {} (formatPad 70 [120, 121, 122])).1), .charAt 1 1 42]
+
+example : rowOf (twoWindows >>= fun st => flush longLabels st) 0 8 =
+    some [(32, 1), (32, 1), (32, 1), (32, 1), (32, 1), (120, 2), (121, 2), (122, 2)] ∧
+    rowOf (twoWindows >>= fun st => flush longLabels st) 1 8 =
+    some [(32, 1), (32, 1), (32, 1), (113, 1), (32, 1), (32, 2), (42, 2), (32, 2)] ∧
+    rowOf (twoWindows >>= fun st => flush longLabels st) 2 8 =
+    some [(0x2576, 1), (0x2500, 1), (0x2500, 1), (0x2500, 1), (0x2500, 1), (0x2500, 1), (0x2500, 1), (0x2574, 1)] := by
   decide +kernel
 
 /-- The root's handler draws a label under `savepen` … `restore` (and leaves a `save` open), then clears "everything":
